@@ -747,6 +747,10 @@ def run(ctx: core.Context) -> int:
             if nb > 1:
                 ctx.log(f'data: batch {bi + 1}/{nb} done, {ctx.sub("data").evaluations} evaluated, {len(ctx.sub("data").violations)} violation signatures')
         ctx.log('data:', ctx.sub('data').summary())
+    if want('crossed'):
+        for r in core.pmap(w_crossed, core.split(crossed_cases(quick), ctx.jobs), ctx.jobs):
+            ctx.sub('crossed').merge(r)
+        ctx.log('crossed:', ctx.sub('crossed').summary())
     if want('sched'):
         st = ctx.sub('sched')
         bound = 1 if quick else 2
@@ -807,8 +811,89 @@ def run(ctx: core.Context) -> int:
 
 def replay(v: core.Violation):
     c = v.case
+    if 'crossed' in c:
+        res = run_crossed(c['crossed'])
+        return [m for ck, sig, m in res['viol'] if ck == v.check and core.canon_json(dict(sig, check=ck)) == v.key]
     if 'params' in c:  # recorded by explore.explore
         res = run_case(c['params'], c.get('prefix') or {}, None)
     else:
         res = run_case(c['p'], None, None)
     return [m for ck, sig, m in res['viol'] if ck == v.check and core.canon_json(dict(sig, check=ck)) == v.key]
+
+
+# ---------------------------------------------------------------------------
+# crossed: both devices open a classic channel towards each other at the same time, so that the channel a device opened
+# and the one it accepted have crossed identifiers (local 0x40 / peer 0x41 and local 0x41 / peer 0x40).  One is closed
+# (by either end) or none; the survivor then carries SDUs in both directions: closing a channel must not take another
+# channel's table entry with it.
+# ---------------------------------------------------------------------------
+def crossed_cases(quick):
+    out = []
+    for link in ('classic', 'le'):
+        for mode in ('B', 'E'):
+            for close in ('opened_by_0', 'opened_by_1', None):
+                for closer in ((0, 1) if close else (None,)):
+                    out.append({'link': link, 'mode': mode, 'close': close, 'closer': closer})
+    return out
+
+
+def run_crossed(case):
+    from ..harness.devices import World
+
+    viol = []
+    sig = {'phase': 'crossed_identifiers', 'mode': case['mode'], 'link': case['link'], 'closed': case['close'] or 'none'}
+    s = spec(mode=case['mode'], mtu=256, mps=48, win=3)
+    psm = 0x1001
+    classic = case['link'] == 'classic'
+    with World(2, classic=classic, le=not classic) as w:
+        w.power_on()
+        conns = list(w.connect_classic() if classic else w.connect_le())
+        accepted = {0: [], 1: []}
+        for d in (0, 1):
+            w.devices[d].create_l2cap_server(spec=mk_spec(s, psm), handler=accepted[d].append)
+        tasks = [w.loop.create_task(conns[d].create_l2cap_channel(mk_spec(s, psm))) for d in (0, 1)]
+        w.loop.run_until(lambda: all(x.done() for x in tasks), horizon=w.loop.time() + 30.0, max_steps=400000)
+        w.loop.run_quiescent(max_steps=400000)
+        if not all(x.done() for x in tasks) or any(x.exception() for x in tasks) or not accepted[0] or not accepted[1]:
+            return {'viol': [('crossed_setup', dict(sig, what='simultaneous_open_failed'), f'{case}: simultaneous opens: {[repr(x.exception()) if x.done() else "pending" for x in tasks]}, accepted {[len(accepted[0]), len(accepted[1])]}')], 'crossed': False}
+        ch = {'opened_by_0': {0: tasks[0].result(), 1: accepted[1][0]}, 'opened_by_1': {1: tasks[1].result(), 0: accepted[0][0]}}
+        crossed = all(c[0].source_cid != c[0].destination_cid for c in ch.values())
+        if case['close']:
+            victim = ch.pop(case['close'])
+            dt = w.loop.create_task(victim[case['closer']].disconnect())
+            w.loop.run_until(dt.done, horizon=w.loop.time() + 30.0, max_steps=400000)
+            w.loop.run_quiescent(max_steps=400000)
+            if not dt.done() or dt.exception():
+                viol.append(('crossed_close', dict(sig, what='close_failed'), f'{case}: closing {case["close"]} by device {case["closer"]}: {dt.exception()!r}' if dt.done() else f'{case}: disconnect() never completed'))
+        for name, ends in ch.items():
+            got = {0: [], 1: []}
+            ends[0].sink = lambda sdu, g=got[0]: g.append(bytes(sdu))
+            ends[1].sink = lambda sdu, g=got[1]: g.append(bytes(sdu))
+            sent = {0: [], 1: []}
+            for i in range(7):
+                for d in (0, 1):
+                    data = bytes(((17 * i + 5 * d + j + (name == 'opened_by_1')) & 0xFF) for j in range(1 + 40 * i))
+                    sent[d].append(data)
+                    ends[d].write(data)
+                w.loop.run_quiescent(max_steps=400000)
+            w.loop.advance(10.0, max_steps=400000)
+            w.loop.run_quiescent(max_steps=400000)
+            for d in (0, 1):
+                if got[1 - d] != sent[d]:
+                    lsig = dict(sig, survivor=name, dir='opener_to_acceptor' if name == f'opened_by_{d}' else 'acceptor_to_opener')
+                    viol.append(('crossed_sdus', dict(lsig, what='sdus_differ'), f'{case}: channel {name} (device {d} local {ends[d].source_cid:#x} / peer {ends[d].destination_cid:#x}): {len(got[1 - d])} of {len(sent[d])} SDUs arrived at the peer'))
+        for msg, exc in w.loop.collect_exceptions():
+            viol.append(('exception', dict(sig, what='exception', exc=exc.split('(')[0]), f'{msg}: {exc}'))
+    return {'viol': viol, 'crossed': crossed}
+
+
+def w_crossed(cases):
+    st = core.Stats('crossed')
+    for case in cases:
+        r = run_crossed(case)
+        st.case(case, sample={'case': case, 'identifiers_crossed': r['crossed']})
+        if r['crossed']:
+            st.count('runs_with_crossed_identifiers')
+        for check, sg, msg in r['viol']:
+            st.violation(check, sg, msg, {'crossed': case})
+    return st
